@@ -44,3 +44,49 @@ Example C13_prefix_example :
     [Some (s2b "a", s2b "d"); Some (s2b "a", s2b "d")] /\
   map (fun p => pm_compact p (s2b "http://a/b/x")) s = [None; Some (s2b "b", s2b "x")].
 Proof. vm_compute. split; reflexivity. Qed.
+
+(* ---------- relative references ---------- *)
+From RK Require Import Iri3986 Relativize Curie RelCurieProofs.
+
+(* whenever RelativizeIRI offers a spelling, expanding it against the same base gives
+   back exactly the IRI ([expand] = RFC 3986 resolution; the empty reference names the base) *)
+Theorem C13_relativize_sound : forall b v r, relativize b v = Some r -> expand (b_orig b) r = v.
+Proof. exact relativize_sound. Qed.
+Print Assumptions C13_relativize_sound.
+
+Theorem C13_relativize_sound_rfc : forall b v r, relativize b v = Some r -> r <> [] -> resolve (b_orig b) r = v.
+Proof. exact relativize_sound_rfc. Qed.
+Print Assumptions C13_relativize_sound_rfc.
+
+(* near misses of the index arithmetic are withheld, not returned *)
+Theorem C13_relativize_none_honest : forall b v c,
+  relativize_candidate b v = Some c -> expand (b_orig b) c <> v -> relativize b v = None.
+Proof. exact relativize_none_honest. Qed.
+Print Assumptions C13_relativize_none_honest.
+
+(* the five near-miss classes of the candidate computation are all caught (non-vacuity of the guard) *)
+Example C13_relativize_near_misses :
+  let b := new_base (s2b "http://a/b/c?q") in
+  map (relativize_candidate b) [s2b "http://a/b/"; s2b "http://a/b/d?x"; s2b "http://a/b/x:y"; s2b "http://a/b//d"; s2b "http://a/b/../d"]
+    = [Some []; Some (s2b "?x"); Some (s2b "x:y"); Some (s2b "/d"); Some (s2b "../d")] /\
+  map (relativize b) [s2b "http://a/b/"; s2b "http://a/b/d?x"; s2b "http://a/b/x:y"; s2b "http://a/b//d"; s2b "http://a/b/../d"]
+    = [None; None; None; None; None] /\
+  relativize b (s2b "http://a/b/c?q#f") = Some (s2b "#f") /\ relativize b (s2b "http://a/x/y") = Some (s2b "/x/y").
+Proof. vm_compute. repeat split; reflexivity. Qed.
+
+(* ---------- CURIEs ---------- *)
+(* a CURIE produced by compaction from a matching namespace expands back in the same scope *)
+Theorem C13_curie_roundtrip : forall s v,
+  Inv (sc_pm s) -> pm_compact (sc_pm s) v <> None -> expand_curie s (compact_curie s v) = Some v.
+Proof. exact curie_roundtrip. Qed.
+Print Assumptions C13_curie_roundtrip.
+
+(* current code, known finding F27: when nothing matches CompactCURIE still returns a CURIE
+   (empty prefix), and that one expands through a mapping of the empty prefix to another IRI *)
+Theorem C13_curie_near_miss_refuted : exists s v w,
+  Inv (sc_pm s) /\ pm_compact (sc_pm s) v = None /\ expand_curie s (compact_curie s v) = Some w /\ w <> v.
+Proof.
+  exists (Scope false [] false (pm_add pm_empty [Mk [] (s2b "http://a/")])), (s2b "urn:x"), (s2b "http://a/urn:x").
+  split; [apply pm_add_Inv, Inv_empty|]. vm_compute. repeat split; try reflexivity. discriminate.
+Qed.
+Print Assumptions C13_curie_near_miss_refuted.
